@@ -19,6 +19,8 @@
 (*                imm field that selects them)                             *)
 (*   env.fsz      frame sizes: [dflt |-> n, tab |-> <<[pc, size]...>>]     *)
 (*   env.budget   instruction budget (0 = unlimited)                       *)
+(*   env.dev      keys of known-finding deviations to reproduce (normally   *)
+(*                empty; see DESIGN.md 7.4)                                 *)
 (* Region 1 is packet data, 2 the metadata buffer, 3 the 512-byte stack,   *)
 (* 4.. registered allowed ranges.  A region's length is Len(mem[r]); an    *)
 (* absent / empty buffer is a region of length 0.                          *)
@@ -219,10 +221,18 @@ ExecXadd(i) ==
 ExecJa(i) == /\ Advance(1 + i.off)
              /\ UNCHANGED <<env, reg, rt, mem, sw, frames, curFn, status, hlog, defd>>
 
+\* Named deviation (known finding, enabled only when its key is in env.dev): the pinned
+\* interpreter zero-extends the immediate of the 64-bit equality / unsigned comparisons.
+Dev_JmpImmZeroExt(i) ==
+  /\ "jmp_imm_zext" \in env.dev
+  /\ Cls(i.opc) = CLS_JMP /\ SrcBit(i.opc) = 0
+  /\ Op(i.opc) \in {J_EQ, J_NE, J_GT, J_GE, J_LT, J_LE}
+
 ExecCondJmp(i) ==
   LET full == Cls(i.opc) = CLS_JMP
       op   == Op(i.opc)
-      b    == IF SrcBit(i.opc) = 1 THEN reg[i.src] ELSE ImmWord(i)
+      b    == IF SrcBit(i.opc) = 1 THEN reg[i.src]
+              ELSE IF Dev_JmpImmZeroExt(i) THEN ImmZ(i) ELSE ImmWord(i)
       tb   == IF SrcBit(i.opc) = 1 THEN rt[i.src] ELSE "c"
   IN /\ Advance(IF Cond(op, full, reg[i.dst], b) THEN 1 + i.off ELSE 1)
      /\ defd' = (defd /\ TaintCondOK(op, full, rt[i.dst], tb))
